@@ -832,6 +832,9 @@ class Element(object):
         """
         if self.parent is not None:
             return self.parent.encoding_chars
+        if self.traversal_parent is not None:
+            # an element reached by traversal is not attached yet: it still belongs to that tree
+            return self.traversal_parent.encoding_chars
         return get_default_encoding_chars(self.version)
 
     def _find_structure(self, reference=None):
